@@ -100,7 +100,7 @@ def run(ck):
         v = H.build_exec_harness('c11-%s-asan' % vname, ts=ts)
         symfile = os.path.join(v['dir'], 'syms.txt')
         H.write_syms(v, v['h_exec'], symfile)
-        ex = hist.Explorer(v['h_exec'], symfile, os.path.join(ck.workdir, vname), ['sinks pipe'], L, warmup=['cfgnone', 'call execve h2f77 [h77] [] -1 2'])
+        ex = hist.Explorer(v['h_exec'], symfile, os.path.join(ck.workdir, vname), ['sinks pipe', 'errno -1'], L, warmup=['cfgnone', 'call execve h2f77 [h77] [] -1 2'])
         # reference: each letter as the very first wrapped call of a fresh process (no warm-up call before it)
         fresh = {}
         for a, r0 in zip(L, pmap(lambda a: ex.run_history([a], warm=False), list(L))):
